@@ -15,13 +15,14 @@
    indent is the property's own ("indent >= 0 or default") and is needed: C06_canonical_indent_none_refuted.
    Not covered: files of other producers (they are not the output of any call list of the writer model).
 
-   [tree_metas_encoded t] / [metas_encoded s0 cs] (ADDED with the fix of DiffXWriter.write_meta, `if not (encoding or
-   self._cur_encoding): content = content.encode('ascii')`): at every metadata section an encoding is in force.
-   A writer / tree without any encoding used to reject write_meta (TypeError) and now writes the JSON as bytes, which
-   the reader hands to json.loads as bytes; [oracle_ok] and DomSpec.expected_view describe the text path only, so
-   C06_full / C06_full_aligned / C06_canonical / C06_canonical_aligned are false for such files without the hypothesis
-   (props/C01_sequence.v: C01_round_trip_unencoded_refuted).  It holds whenever the writer is constructed with / the
-   main section declares an encoding (C01_metas_encoded_init, C05_tree_metas_encoded_main). *)
+   [tree_metas_oracle_ok orc t] / [metas_oracle_ok orc s0 cs] (ADDED with the fix of DiffXWriter.write_meta, `if not
+   (encoding or self._cur_encoding): content = content.encode('ascii')`): at every metadata section an encoding is in
+   force, OR the oracle answers for the JSON bytes.  A writer / tree without any encoding used to reject write_meta
+   (TypeError) and now writes the JSON as ASCII bytes, which the reader hands to json.loads as bytes; [oracle_ok]
+   speaks about the JSON text only, so C06_full / C06_full_aligned / C06_canonical / C06_canonical_aligned are false
+   for such files without the hypothesis (props/C01_sequence.v: C01_round_trip_unencoded_refuted) and cover them with
+   it (C06_full_ex3).  Nothing is required when the writer is constructed with / the main section declares an
+   encoding (C01_metas_encoded_init + C01_metas_oracle_of_encoded, C05_tree_metas_oracle_main). *)
 From Coq Require Import List Arith NArith ZArith Bool Strings.Byte.
 From Coq Require Strings.String.
 From DX Require Import Bytes Res Codec Text Sections Header Stream Json Reader Writer Dom.
@@ -58,7 +59,7 @@ Print Assumptions C06_reserialise_full.
 Theorem C06_full : forall orc t b,
   typed_tree t = true -> tree_encs_ok t = true -> tree_indents_ok t = true ->
   dom_write t = Ok b ->
-  tree_oracle_ok orc t -> tree_metas_encoded t -> tree_guesses_ok t ->
+  tree_oracle_ok orc t -> tree_metas_oracle_ok orc t -> tree_guesses_ok t ->
   (Z.of_nat (length b) <= sys_maxsize)%Z ->
   exists t', dom_read orc b = Ok t' /\ t' = normalise t /\
              dom_write t' = Ok b /\ normalise t' = t' /\
@@ -69,7 +70,7 @@ Print Assumptions C06_full.
 Theorem C06_full_aligned : forall orc t b,
   typed_tree t = true -> tree_encs_aligned t = true -> tree_indents_ok t = true ->
   dom_write t = Ok b ->
-  tree_oracle_ok orc t -> tree_metas_encoded t ->
+  tree_oracle_ok orc t -> tree_metas_oracle_ok orc t ->
   (Z.of_nat (length b) <= sys_maxsize)%Z ->
   exists t', dom_read orc b = Ok t' /\ t' = normalise t /\
              dom_write t' = Ok b /\ normalise t' = t' /\
@@ -81,6 +82,11 @@ Print Assumptions C06_full_aligned.
 Example C06_full_ex2 : exists t', dom_read ex_orc2 ex_bytes2 = Ok t' /\ t' = normalise ex_tree2 /\
   dom_write t' = Ok ex_bytes2 /\ normalise t' = t' /\ (forall b', dom_write t' = Ok b' -> dom_read ex_orc2 b' = Ok t').
 Proof. exact DomCompose.ex2_C06_full. Qed.
+
+(* a tree without any encoding that has metadata (hypotheses: C05_full_ex3_hypotheses in props/C05_full.v) *)
+Example C06_full_ex3 : exists t', dom_read ex_orc3 ex_bytes3 = Ok t' /\ t' = normalise ex_tree3 /\
+  dom_write t' = Ok ex_bytes3 /\ normalise t' = t' /\ (forall b', dom_write t' = Ok b' -> dom_read ex_orc3 b' = Ok t').
+Proof. exact DomCompose.ex3_C06_full. Qed.
 
 (* ---- files produced by the streaming writer ---- *)
 
@@ -112,7 +118,7 @@ Print Assumptions C06_accepted_shape.
 Theorem C06_canonical : forall enc0 ver s0 cs orc,
   writer_init enc0 ver = (s0, Ok tt) -> enc_ok enc0 ->
   Forall call_good cs -> Forall indent_explicit cs -> accepted s0 cs ->
-  metas_encoded s0 cs -> guesses_ok s0 cs -> oracle_ok orc cs ->
+  metas_oracle_ok orc s0 cs -> guesses_ok s0 cs -> oracle_ok orc cs ->
   (Z.of_nat (length (w_out (snd (run_calls s0 cs)))) <= sys_maxsize)%Z ->
   exists t', dom_read orc (w_out (snd (run_calls s0 cs))) = Ok t' /\
              dom_write t' = Ok (w_out (snd (run_calls s0 cs))) /\ normalise t' = t' /\
@@ -124,7 +130,7 @@ Print Assumptions C06_canonical.
 Theorem C06_canonical_aligned : forall enc0 ver s0 cs orc,
   writer_init enc0 ver = (s0, Ok tt) -> enc_aligned enc0 ->
   Forall call_good cs -> Forall (fun c => enc_aligned (call_enc c)) cs -> Forall indent_explicit cs -> accepted s0 cs ->
-  metas_encoded s0 cs -> oracle_ok orc cs ->
+  metas_oracle_ok orc s0 cs -> oracle_ok orc cs ->
   (Z.of_nat (length (w_out (snd (run_calls s0 cs)))) <= sys_maxsize)%Z ->
   exists t', dom_read orc (w_out (snd (run_calls s0 cs))) = Ok t' /\
              dom_write t' = Ok (w_out (snd (run_calls s0 cs))) /\ normalise t' = t' /\
@@ -139,13 +145,13 @@ Example C06_canonical_ex_hypotheses :
   writer_init RoundTripSeqExample.ex_enc0 RoundTripSeqExample.ex_ver = (RoundTripSeqExample.ex_s0, Ok tt) /\
   enc_ok RoundTripSeqExample.ex_enc0 /\ Forall call_good RoundTripSeqExample.ex_cs /\
   Forall indent_explicit RoundTripSeqExample.ex_cs /\ accepted RoundTripSeqExample.ex_s0 RoundTripSeqExample.ex_cs /\
-  metas_encoded RoundTripSeqExample.ex_s0 RoundTripSeqExample.ex_cs /\
+  metas_oracle_ok RoundTripSeqExample.ex_orc RoundTripSeqExample.ex_s0 RoundTripSeqExample.ex_cs /\
   guesses_ok RoundTripSeqExample.ex_s0 RoundTripSeqExample.ex_cs /\
   oracle_ok RoundTripSeqExample.ex_orc RoundTripSeqExample.ex_cs /\
   (Z.of_nat (length (w_out (snd (run_calls RoundTripSeqExample.ex_s0 RoundTripSeqExample.ex_cs)))) <= sys_maxsize)%Z.
 Proof.
   exact (conj RoundTripSeqExample.ex_init (conj RoundTripSeqExample.ex_enc0_ok (conj RoundTripSeqExample.ex_good
-        (conj DomComposeCanon.ex_indent_explicit (conj RoundTripSeqExample.ex_accepted (conj RoundTripSeqExample.ex_metas
+        (conj DomComposeCanon.ex_indent_explicit (conj RoundTripSeqExample.ex_accepted (conj RoundTripSeqExample.ex_metas_oracle
         (conj RoundTripSeqExample.ex_guesses (conj RoundTripSeqExample.ex_oracle RoundTripSeqExample.ex_size)))))))).
 Qed.
 
